@@ -30,6 +30,7 @@ CONSTANTS
   Record = TRUE
   ReadOnly = FALSE
   AckSplit = FALSE
+  HoldCb = FALSE
   RM = TRUE
   Slots = 2
   RmUuids = {1, 2}
